@@ -6,14 +6,96 @@
 //!        a<g> | r<a>-<b> | A<g,g,...> ; reply: m0 m1 m2
 //!   digest mayhave <m0> <m1> <m2> <n0> <n1> <n2> -> 0|1
 //!   digest hasglyph <m0> <m1> <m2> <g> -> 0|1
+//!   digest collect <m0> <m1> <m2> <fmt> <items>  the real `CoverageExt::collect` on a coverage table written exactly as
+//!        given (NOT sorted, NOT validated).  fmt 1: items = g,g,… | -    fmt 2: items = a-b,a-b,… | -
+//!        (startCoverageIndex of record i is i).  reply: m0 m1 m2
+//!   digest covget <fmt> <items> <g>          `Coverage::get` on the same table -> coverage index | -
+//!   digest lookups <fontid> gsub|gpos <num_glyphs>   for every lookup of the table, as parsed by the crate:
+//!        ok <n> m0:m1:m2:<g,g,…|-> …   (lookup digest; glyphs below num_glyphs that some subtable's coverage reports)
+//!   digest lookupdigest <fontid> gsub|gpos <lookup index> COVS <fmt> <items> <fmt> <items> …
+//!        the digest `SubstLookup::parse` / `PositioningLookup::parse` built for that lookup -> m0 m1 m2
+//!        (COVS …, the coverage table of every subtable as written in the font, is for the Lean model)
 use super::util::u64s;
 use rustybuzz::verif::digest as d;
+use rustybuzz::verif::layout_common as lc;
+
+/// payload bytes of a coverage table written as given
+fn cov_payload(fmt: u16, items: &str) -> Option<Vec<u8>> {
+    let mut v = Vec::new();
+    if items == "-" {
+        return Some(v);
+    }
+    for (i, it) in items.split(',').enumerate() {
+        if fmt == 1 {
+            v.extend_from_slice(&it.parse::<u16>().ok()?.to_be_bytes());
+        } else {
+            let (a, b) = it.split_once('-')?;
+            v.extend_from_slice(&a.parse::<u16>().ok()?.to_be_bytes());
+            v.extend_from_slice(&b.parse::<u16>().ok()?.to_be_bytes());
+            v.extend_from_slice(&(i as u16).to_be_bytes());
+        }
+    }
+    Some(v)
+}
 
 pub const CMDS: &[&str] = &["digest"];
 
 pub fn handle(toks: &[&str], _st: &mut crate::State) -> Option<String> {
     let toks = &toks[1..];
     match *toks.first()? {
+        "collect" => {
+            let v = u64s(&toks[1..4])?;
+            let fmt: u16 = toks.get(4)?.parse().ok()?;
+            let payload = cov_payload(fmt, toks.get(5)?)?;
+            let m = lc::coverage_collect(fmt, &payload, [v[0], v[1], v[2]])?;
+            Some(format!("{} {} {}", m[0], m[1], m[2]))
+        }
+        "covget" => {
+            let fmt: u16 = toks.get(1)?.parse().ok()?;
+            let payload = cov_payload(fmt, toks.get(2)?)?;
+            let g: u16 = toks.get(3)?.parse().ok()?;
+            Some(match lc::coverage_get(fmt, &payload, g)? {
+                Some(i) => format!("{}", i),
+                None => "-".into(),
+            })
+        }
+        "lookupdigest" => {
+            let data: &'static [u8] = _st.fonts.get(*toks.get(1)?)?;
+            let face = rustybuzz::Face::from_slice(data, 0)?;
+            let gpos = match *toks.get(2)? {
+                "gsub" => false,
+                "gpos" => true,
+                _ => return None,
+            };
+            let li: usize = toks.get(3)?.parse().ok()?;
+            let ds = lc::lookup_digests(&face, gpos);
+            let m = ds.get(li)?;
+            Some(format!("{} {} {}", m[0], m[1], m[2]))
+        }
+        "lookups" => {
+            let data: &'static [u8] = _st.fonts.get(*toks.get(1)?)?;
+            let face = rustybuzz::Face::from_slice(data, 0)?;
+            let gpos = match *toks.get(2)? {
+                "gsub" => false,
+                "gpos" => true,
+                _ => return None,
+            };
+            let ng: u16 = toks.get(3)?.parse().ok()?;
+            let ds = lc::lookup_digests(&face, gpos);
+            let cs = lc::lookup_covered(&face, gpos, ng);
+            let mut out = format!("ok {}", ds.len());
+            for (m, c) in ds.iter().zip(cs.iter()) {
+                let gl: Vec<String> = c.iter().map(|g| g.to_string()).collect();
+                out.push_str(&format!(
+                    " {}:{}:{}:{}",
+                    m[0],
+                    m[1],
+                    m[2],
+                    if gl.is_empty() { "-".into() } else { gl.join(",") }
+                ));
+            }
+            Some(out)
+        }
         "add" => {
             let v = u64s(&toks[1..])?;
             Some(format!("{}", d::pattern_add(v[0] as u8, v[1], v[2] as u16)))
